@@ -135,31 +135,38 @@ SliceOp(g, v, P(_, _, _)) ==
 \* transcribed from merge.rs: put, then per edge of `right` in enumeration order
 \* kid | mapped | next_id+add+bind, then recurse.  `lim` turns FALSE when a step leaves
 \* the limits (no free id, bind outside BindOk); join() is never reached on trees.
-RECURSIVE MergeRec(_, _, _, _, _, _), MergeKids(_, _, _, _, _, _, _)
-MergeRec(g, h, left, right, m, lim) ==
-  IF ~lim \/ right \in DOMAIN m THEN [g |-> g, m |-> m, lim |-> lim]
+\* `log` is the sequence of API calls the merge amounts to ("as if the additions had been made by add/bind/put"):
+\* put, next_id (with the id the model obtained), add, bind - in the order merge.rs makes them.
+RECURSIVE MergeRec(_, _, _, _, _, _, _), MergeKids(_, _, _, _, _, _, _, _)
+MergeRec(g, h, left, right, m, lim, log) ==
+  IF ~lim \/ right \in DOMAIN m THEN [g |-> g, m |-> m, lim |-> lim, log |-> log]
   ELSE LET m1 == (right :> left) @@ m
-           g1 == IF h.st[right] # "empty" THEN PutOp(g, left, h.val[right]) ELSE g
-       IN MergeKids(g1, h, left, right, m1, 1, lim)
-MergeKids(g, h, left, right, m, i, lim) ==
-  IF i > Len(h.edges[right]) \/ ~lim THEN [g |-> g, m |-> m, lim |-> lim]
+           withdata == h.st[right] # "empty"
+           g1 == IF withdata THEN PutOp(g, left, h.val[right]) ELSE g
+           log1 == IF withdata THEN Append(log, [op |-> "put", v |-> left, d |-> h.val[right]]) ELSE log
+       IN MergeKids(g1, h, left, right, m1, 1, lim, log1)
+MergeKids(g, h, left, right, m, i, lim, log) ==
+  IF i > Len(h.edges[right]) \/ ~lim THEN [g |-> g, m |-> m, lim |-> lim, log |-> log]
   ELSE LET a == h.edges[right][i][1]
            to == h.edges[right][i][2]
            k == KidOf(g, left, a)
-           step == IF to \notin h.present THEN [g |-> g, t |-> None, lim |-> FALSE]   \* dangling edge in h
-                   ELSE IF k # None THEN [g |-> g, t |-> k, lim |-> k \in g.present]
+           step == IF to \notin h.present THEN [g |-> g, t |-> None, lim |-> FALSE, log |-> log]   \* dangling edge in h
+                   ELSE IF k # None THEN [g |-> g, t |-> k, lim |-> k \in g.present, log |-> log]
                    ELSE IF to \in DOMAIN m
-                        THEN [g |-> BindOp(g, left, m[to], a), t |-> m[to], lim |-> BindOk(g, left, m[to], a)]
-                   ELSE IF ~NextIdOk(g) THEN [g |-> g, t |-> None, lim |-> FALSE]
+                        THEN [g |-> BindOp(g, left, m[to], a), t |-> m[to], lim |-> BindOk(g, left, m[to], a),
+                              log |-> Append(log, [op |-> "bind", v1 |-> left, v2 |-> m[to], a |-> a])]
+                   ELSE IF ~NextIdOk(g) THEN [g |-> g, t |-> None, lim |-> FALSE, log |-> log]
                    ELSE LET id == NextIdOf(g)
                             g2 == AddOp(NextIdOp(g), id) IN
-                        [g |-> BindOp(g2, left, id, a), t |-> id, lim |-> BindOk(g2, left, id, a)]
-       IN IF ~step.lim THEN [g |-> g, m |-> m, lim |-> FALSE]
-          ELSE LET r == MergeRec(step.g, h, step.t, to, m, lim) IN
-               MergeKids(r.g, h, left, right, r.m, i + 1, r.lim)
+                        [g |-> BindOp(g2, left, id, a), t |-> id, lim |-> BindOk(g2, left, id, a),
+                         log |-> log \o <<[op |-> "next_id", ret |-> id], [op |-> "add", v |-> id],
+                                          [op |-> "bind", v1 |-> left, v2 |-> id, a |-> a]>>]
+       IN IF ~step.lim THEN [g |-> g, m |-> m, lim |-> FALSE, log |-> log]
+          ELSE LET r == MergeRec(step.g, h, step.t, to, m, lim, step.log) IN
+               MergeKids(r.g, h, left, right, r.m, i + 1, r.lim, r.log)
 MergeOp(g, h, left, right) ==
-  LET r == MergeRec(g, h, left, right, <<>>, left \in g.present /\ right \in h.present) IN
-  [g |-> r.g, m |-> r.m, lim |-> r.lim,
+  LET r == MergeRec(g, h, left, right, <<>>, left \in g.present /\ right \in h.present, <<>>) IN
+  [g |-> r.g, m |-> r.m, lim |-> r.lim, log |-> r.log,
    ok |-> Cardinality(DOMAIN r.m) = Cardinality(h.present),
    missed |-> h.present \ DOMAIN r.m]
 
